@@ -263,6 +263,10 @@ impl Check for C20 {
     fn essential(&self, _tier: Tier) -> Vec<&'static str> {
         vec!["traversal-compared", "nested-type-2", "multi-file", "op-tuple-return", "enumerator-fields", "def-alias", "cross-module-ref"]
     }
+    fn fuzz_families(&self, _tier: Tier) -> Vec<(&'static str, u64)> {
+        // libFuzzer runs per job (16 jobs), sized from the measured speed of the instrumented build
+        vec![("programs", 15000)]
+    }
     fn families(&self, tier: Tier) -> Vec<Family<'_>> {
         let cfg = GenCfg {
             docs: false,
